@@ -15,6 +15,33 @@ A problem is a dict: {prop, classification, what, at:[line,col] (input position,
 expected, got, context}.  Replaying needs only (opts, res["source"]).
 
 Conservative choices (places where the property statements leave room) are marked `AMBIGUITY`.
+
+Classifications (stable identifiers; `<where>` = `-in-` + `+`-joined parts among
+`nested-selector-function` (selector function depth >= 2), `at-prelude:<name>` (inside a block of
+that at-rule's prelude), `at-rule:<chain>` (enclosing rule-bearing at-rules, outermost first,
+joined by `>`; a name not written in lower case is suffixed `(uppercase)`); `<ctx>` =
+`-in-<mode>[-of-import|-of-host][-in-at-rule:<chain>]`):
+  C01  panic | output-missing:<key> | harness-answer-malformed
+  C08  ws-lost<where> (ws-lost-in-selector at top level) | ws-inserted-in-selector<where>
+       calc-ws-lost | calc-ws-lost-in-nested-paren | calc-ws-lost-in-nested-fn:<name> | calc-ws-lost-in-nested-<block>
+       unicode-range-split | unicode-range-value-changed | anb-sign-changed | comment-kept
+       token-dropped<ctx> | token-added<ctx> | token-changed<ctx>
+  C09  class-not-prefixed<where> | class-name-wrong<where> | class-sign-missing<where>
+       non-class-ident-prefixed-in-(import-layer-name | at-prelude:<name> | declaration-value… | <mode>)
+       class-sign-at-non-class-position-in-(…same…)
+  C10  int-lost-digits | non-integer-6-digits | number-value-changed | number-sign-changed |
+       number-kind-or-unit-changed | rpx-6-digits | rpx-wrong | rpx-underflow | rpx-not-converted<ctx>
+  C17  host-rule-left-in-normal-output[-in-at-rule:<chain>] | host-combination-left-in-normal-output[…]
+       host-rule-missing-from-low-output[…] | low-output-extra-rule | low-output-nonempty-with-conversion-off
+       host-wrapper-chain-differs | host-wrapper-differs:token-… | host-combination-warning-missing[…]
+       host-combination-warning-spurious | token-dropped/added/changed<ctx> (inside a converted rule)
+  C18  import-url-dropped | import-layer-keyword-as-media | import-rewrite-differs |
+       import-comment-format | import-path-not-recoverable | import-path-not-encoded |
+       import-position-warning-missing | import-flagged-though-legal-position (only if STRICT_IMPORT_POSITION)
+       token-dropped/added/changed<ctx> with `-of-import`
+  C19  map-json-roundtrip | map-not-monotonic | map-dst-col-not-token-start | map-missing-entry |
+       map-position-before-comment | map-src-wrong[-in-import-rewrite|-in-host-rewrite] |
+       map-name-missing | map-name-wrong
 """
 import difflib
 import re
@@ -234,7 +261,6 @@ class Opts:
 RULE_BEARING = {"media", "supports", "layer", "container", "scope", "document", "-moz-document",
                 "starting-style"}
 KEYFRAMES = {"keyframes", "-webkit-keyframes", "-moz-keyframes"}
-COMBINATORS = {">", "+", "~", "|"}
 
 
 class Ctx:
@@ -308,10 +334,6 @@ class E:
         if self.val is not None:
             return "%s(%r)" % (self.kind, self.val)
         return self.kind
-
-
-def _is_ws(t):
-    return t.kind == "ws"
 
 
 def _ends_compound(t):
@@ -772,8 +794,8 @@ class Analysis:
         if k == "ident":
             if e.val == o.val:
                 return EXACT
-            if e.role == "class" and o.val == e.src.val:
-                return SOFT
+            if e.role == "class":
+                return SOFT     # a class selector with another name: judged by C09
             if e.role != "class" and self.o.prefix is not None and o.val == self.o.prefix + "--" + e.val:
                 return SOFT
             return NONE
@@ -1050,9 +1072,12 @@ class Analysis:
                              "whitespace (a descendant combinator) appears inside a compound selector", e, o)
         k = e.kind
         if k == "ident" and m == SOFT:
-            if e.role == "class":
+            if e.role == "class" and o.val == e.src.val:
                 self.add("C09", "class-not-prefixed" + cx.where(),
                          "class selector .%s is not emitted as .%s" % (e.src.val, e.val), e, o)
+            elif e.role == "class":
+                self.add("C09", "class-name-wrong" + cx.where(),
+                         "class selector .%s is emitted as .%s instead of .%s" % (e.src.val, o.val, e.val), e, o)
             else:
                 self.add("C09", "non-class-ident-prefixed" + self.ident_where(e),
                          "identifier %r is not a class selector but got the class prefix" % e.val, e, o)
@@ -1127,7 +1152,7 @@ class Analysis:
                 sig = [t for t in pre if t.kind != "comment"]
                 if kind == "q" and len(sig) >= 2 and sig[0].kind == "colon" and sig[1].kind in ("ident", "fn") and sig[1].val == "host":
                     pure = len(sig) == 2 and sig[1].kind == "ident"
-                    chain = _out_chain(sig[0])
+                    chain = _out_chain(sig[0], self.tn)
                     self.add("C17", ("host-rule" if pure else "host-combination") + "-left-in-normal-output"
                              + (("-in-at-rule:" + ">".join(chain)) if chain else ""),
                              "a `:host` rule is still in the normal output although host conversion is on", ref, sig[0])
@@ -1292,14 +1317,13 @@ def _chunks(items, also=lambda x: False):
     return res
 
 
-def _out_chain(t):
+def _out_chain(t, top):
     """names of the at-rules whose blocks enclose output token `t`, outermost first"""
     chain = []
     b = t.parent
     while b is not None:
-        sibs = b.parent.children if b.parent is not None else None
-        if b.kind == "curly" and sibs is not None or b.kind == "curly":
-            sibs = b.parent.children if b.parent is not None else _TOP.get("top", [])
+        if b.kind == "curly":
+            sibs = b.parent.children if b.parent is not None else top
             i = b.index - 1
             name = None
             while i >= 0 and sibs[i].kind not in ("semi", "curly"):
@@ -1310,9 +1334,6 @@ def _out_chain(t):
                 chain.append(name)
         b = b.parent
     return list(reversed(chain))
-
-
-_TOP = {}
 
 
 def _rules_of(toks):
@@ -1370,7 +1391,6 @@ def analyze(opts, res):
     if rw.unspecified:
         # an @import that is not `<url-or-string> …` with an import sign: the statement says nothing
         return an
-    _TOP["top"] = tn
     an.cmp_level(exp_n, tn, "normal")
     # low-priority output: list of (wrapper chain, rule)
     flat = []
